@@ -50,11 +50,11 @@ def render_class(name, c, names):
 
 
 def render_case(i, rec):
-    names = ["C%d" % (k + 1) for k in range(len(rec["c"]))]
-    out = ["namespace n%d {" % i]
+    # global scope (members of namespaces are exported only on demand), unique names per case
+    names = ["K%d_C%d" % (i, k + 1) for k in range(len(rec["c"]))]
+    out = []
     for k, c in enumerate(rec["c"]):
         out.append(render_class(names[k], c, names))
-    out.append("}")
     return "\n".join(out)
 
 
@@ -65,7 +65,7 @@ template<class T, class=void> struct CanNew : std::false_type {};
 template<class T> struct CanNew<T, std::void_t<decltype(new T())>> : std::true_type {};
 template<class T, class=void> struct CanCopy : std::false_type {};
 template<class T> struct CanCopy<T, std::void_t<decltype(new T(std::declval<const T&>()))>> : std::true_type {};
-#define P(I,T) printf("%d " #T " %d %d %d %d %d\n", I, (int)std::is_abstract<n##I::T>::value, (int)std::is_polymorphic<n##I::T>::value, (int)CanNew<n##I::T>::value, (int)CanCopy<n##I::T>::value, (int)std::is_destructible<n##I::T>::value);
+#define P(I,T) printf("%d " #T " %d %d %d %d %d\n", I, (int)std::is_abstract<K##I##_##T>::value, (int)std::is_polymorphic<K##I##_##T>::value, (int)CanNew<K##I##_##T>::value, (int)CanCopy<K##I##_##T>::value, (int)std::is_destructible<K##I##_##T>::value);
 '''
 
 
@@ -146,8 +146,8 @@ def run_batch(args):
     q = []
     for i, rec in cases:
         for k in range(len(rec["c"])):
-            q.append("n%d::C%d" % (i, k + 1))
-            q.append("__is_polymorphic(n%d::C%d)" % (i, k + 1))
+            q.append("K%d_C%d" % (i, k + 1))
+            q.append("__is_polymorphic(K%d_C%d)" % (i, k + 1))
     r2 = run.run_tool("parse_file", ["-p", h], cwd=work, stdin=("\n".join(q) + "\n").encode(), timeout=300)
     ig = {}
     cur, d = None, {}
@@ -249,10 +249,10 @@ def run_check(ctx):
                     raise MachineryError("spec != g++ on %s of:\n%s\nspec %s\ng++  %s" % (nm, render_case(i, rec), sp, g))
                 distinct.add(json.dumps(rec["c"][:k + 1], sort_keys=True))
                 own_dtor_unusable = rec["c"][k]["dt"] != "none" and (rec["c"][k]["dtacc"] != "pub" or rec["c"][k]["dt"] == "delete")
-                t = res["ig"].get("n%d::%s" % (i, nm))
+                t = res["ig"].get("K%d_%s" % (i, nm))
                 cls = classes_of(rec, k)
                 if t is None:
-                    ctx.violation("parse_file -p gave no judgement for n%d::%s" % (i, nm), dict(program=render_case(i, rec)))
+                    ctx.violation("parse_file -p gave no judgement for K%d_%s" % (i, nm), dict(program=render_case(i, rec)))
                     continue
                 keys = ["abs", "poly", "d"] if own_dtor_unusable else ["abs", "poly", "dc", "cc", "d"]
                 bad = [x for x in keys if t.get(x) != sp[x]]
@@ -262,7 +262,7 @@ def run_check(ctx):
                         dict(program=render_case(i, rec), cls=nm, spec=sp, interrogate=t, view="parse_file -p",
                              stat_key="pf %s %s" % (["%s:%s->%s" % (x, sp[x], t.get(x)) for x in bad], features(rec, k))), classes=cls)
                 if dbv is not None:
-                    dv = dbv.get("n%d::%s" % (i, nm))
+                    dv = dbv.get("K%d_%s" % (i, nm))
                     if dv is None:
                         continue      # not exported at all (e.g. nothing public): no claim
                     keys = ["d"] if own_dtor_unusable else ["dc", "cc", "d"]
